@@ -5,6 +5,7 @@
 -/
 import PigeonVerif.Model.Protocol
 import PigeonVerif.Proofs.WFTerm
+import PigeonVerif.Proofs.LRTerm
 
 namespace PV
 namespace WfgProtocol
@@ -30,6 +31,21 @@ def runWfg (c : Case) (tl : Rune → Rune) : String :=
   let nl := nullableRules E.rules (E.rules.length + 1) []
   let rk := E.rules.map (fun r => (r.name, rankSearch E nl (E.rules.length + 1) r.name))
   s!"wfg {c.id} {if RT.checkWFG E nl rk then 1 else 0}"
+
+/-- longest path in the first graph without the edges into leaders (or undefined names) -/
+def rankSearchLR (E : Env) (nl : List String) : Nat → String → Nat
+  | 0, _ => 0
+  | k + 1, n =>
+    match E.findRule n with
+    | none => 0
+    | some r => (((r.expr.first (RT.rnOf nl)).filter (fun m => !RT.ldName E m)).map (fun m => rankSearchLR E nl k m + 1)).foldl max 0
+
+/-- `pvdriver --lrwf`: witness search + the proved checker `RT.checkLRWF` (then `C08_checked_grammars_terminate`) -/
+def runLrwf (c : Case) (tl : Rune → Rune) : String :=
+  let E := envOfCase c tl
+  let nl := nullableRules E.rules (E.rules.length + 1) []
+  let rk := E.rules.map (fun r => (r.name, rankSearchLR E nl (E.rules.length + 1) r.name))
+  s!"lrwf {c.id} {if RT.checkLRWF E nl rk then 1 else 0}"
 
 end WfgProtocol
 end PV
